@@ -17,10 +17,22 @@ RULE = ("frames with 1..3 SearchArray columns (same or different tokenizers: a s
         "Coq model (exact rationals over binary32 BM25 scores) vs the declarative spec, 1e-6 relative + exact zero "
         "pattern. Non-trivial = at least two distinct non-zero scores and one zeroed-out row. Distinct by hash.")
 TRUSTED = ["extraction + ocaml driver", "float64/float32 combination arithmetic of numpy is modelled exactly over Q (tolerance 1e-6)",
+           "any-similarity phase: arr.score(term, similarity) asked by the harness returns what edismax gets (C07: queries are pure)",
            "idf values recomputed by the harness with numpy", "mm spec printer shared with C11"]
-ASSUMPTIONS = ["every query field tokenizes the query to at least one term", "similarities are non-negative (BM25)"]
+ASSUMPTIONS = ["a query field may tokenize the query to NO term at all (stop-word-only queries): such a field scores 0; at most "
+               "50 terms per field (the float-exact range of mm, C11)",
+               "main phase: the default BM25 similarity (binary32 model; its single-term scores are non-negative: hypothesis "
+               "wf_nonneg of C09_query_field_score). any-similarity phase: the per-term score vectors are read off the real "
+               "arrays and are an input of the generic model; theorem C09_any_similarity needs them non-negative on the "
+               "field-centric path only (all similarities exercised are non-negative), and finite (checked on every case)",
+               "boosts are non-negative"]
 EXPLANATION = ("model = solr.py's running max/sum, tie, mm filter, term-/field-centric choice, phrase phases on the view "
-               "of matching rows; spec = dismax formula per document on whole-frame scores.")
+               "of matching rows; spec = dismax formula per document on whole-frame scores. "
+               "Any-similarity phase (C09 only, harness/props/c09_anysim.py): edismax is called with similarity= one of "
+               "classic / bm25(k1, b) / bm25_legacy / default / a user function, as one Similarity or a dict per field; the "
+               "score vector of every (field, query term) is read from the real array, must be finite, and is the input of "
+               "the similarity-generic model and spec (Solr/Edismax_AnySim.v; theorem C09_any_similarity: model = spec for "
+               "every score table), both compared with edismax's output.")
 
 STOP = 9000
 
@@ -75,27 +87,17 @@ def view_docs(fd):
     return [[t for t in d if not (fd["drop"] and t == STOP)] for d in fd["docs"]]
 
 
-def valid(case):
-    # any field, even every field, may be left without a query term (stop-word-only queries): such a field scores 0
-    return True
-
-
 def gen(rng, tier, with_phrases=None):
     wp = WITH_PHRASES if with_phrases is None else with_phrases
     n = {"quick": 250, "thorough": 5000, "search": 600}[tier]
-    out = []
-    while len(out) < n:
-        c = gen_case(rng, wp)
-        if valid(c):
-            out.append(c)
-    return out
+    # (any field, even every field, may be left without a query term -- stop-word-only queries: such a field scores 0)
+    return [gen_case(rng, wp) for _ in range(n)]
 
 
-def impl(case):
-    import numpy as np
+def build_frame(case):
+    """-> (frame, qf, keyword arguments mm / pf / pf2 / pf3)"""
     import pandas as pd
     from searcharray import SearchArray
-    from searcharray.solr import edismax
     cols = {}
     for i, fd in enumerate(case["fields"]):
         strs = [" ".join(tokname(t) for t in d) for d in fd["docs"]]
@@ -117,6 +119,12 @@ def impl(case):
     for key in ("pf", "pf2", "pf3"):
         if case[key]:
             kw[key] = [spec(i, b) for i, b in case[key]]
+    return df, qf, kw
+
+
+def impl(case):
+    from searcharray.solr import edismax
+    df, qf, kw = build_frame(case)
     try:
         s, _ = edismax(df, q=" ".join(tokname(t) for t in case["q"]), qf=qf, tie=case["tie"], q_op=case["q_op"], **kw)
     except Exception as e:      # noqa
@@ -230,11 +238,36 @@ def shrink_candidates(c):
         for i in range(len(c["q"])):
             e = dict(c)
             e["q"] = c["q"][:i] + c["q"][i + 1:]
-            if valid(e):
-                out.append(e)
+            out.append(e)
     for key in ("pf", "pf2", "pf3"):
         if c[key]:
             e = dict(c)
             e[key] = []
             out.append(e)
     return out
+
+
+def extra_phase(ctx):
+    """edismax with a per-field similarity against the similarity-generic model / spec (C09 only: c10.py does not
+    take this function over)."""
+    from harness.props import c09_anysim
+    return c09_anysim.run_phase(ctx)
+
+
+def replay(rp):
+    """a replay file written by the any-similarity phase (its case carries a "sims" entry) is re-run by that phase;
+    None = not one of those: run.py's generic replay takes over."""
+    case = rp.get("case")
+    if not (rp.get("kind") in ("input", "correspondence") and isinstance(case, dict) and "sims" in case):
+        return None
+    from harness import common as C
+    from harness.props import c09_anysim
+    viol, corr = c09_anysim.evaluate([case], C.scratch_build())
+    if viol:
+        print(f"VIOLATION property={ID} replay(any-similarity phase): {viol[0][4]}")
+        return 1
+    if corr:
+        print(f"VIOLATION property={ID} replay(any-similarity phase) no-failing-input-found")
+        return 1
+    print("replay: property holds on this input now")
+    return 0
